@@ -104,6 +104,15 @@ def readSummary (s : Bytes) : Option (Nat × Nat × Nat) :=
       | some s => some (m.1, r.1, (readNum s).1)
       | none => some (m.1, r.1, 0)
 
+/-- What a terminal shows of a text with SGR colour sequences: everything from an `ESC` up to and including the
+    next `m` is not displayed (`inEsc` = inside such a sequence). -/
+def stripAnsiGo : Bool → Bytes → Bytes
+  | _, [] => []
+  | false, c :: r => if c = 27 then stripAnsiGo true r else c :: stripAnsiGo false r
+  | true, c :: r => if c = 109 then stripAnsiGo false r else stripAnsiGo true r
+
+def stripAnsi (s : Bytes) : Bytes := stripAnsiGo false s
+
 /-! ### `rare filter`: the consumer loop with the `-n NUM` limit
 
     for { matchBatch, more := <-readChan; if !more { break }
